@@ -13,6 +13,7 @@ Section Top.
   Hypothesis Hlen_leaf : forall e, length (hleaf e) = s.
   Hypothesis Hlen_bottom : length hbottom = s.
   Hypothesis Hlen_node : forall b, length (hnode b) = s.
+  #[local] Set Default Proof Using "Hlen_leaf Hlen_bottom Hlen_node".
 
   Notation nextLayer := (nextLayer s hnode).
   Notation levelsOf := (levelsOf s hnode).
@@ -125,6 +126,7 @@ Section Top.
     Hypothesis Hsep_leaf : forall e b, hleaf e <> hnode b.
     Hypothesis Hnz_leaf : forall e, hleaf e <> zeros s.
     Hypothesis Hnz_node : forall b, hnode b <> zeros s.
+    #[local] Set Default Proof Using "All".
 
     Definition isleafP (h : digest) : Prop := exists e, h = hleaf e.
 
@@ -169,6 +171,7 @@ Section Top.
           apply Hinj_leaf in S2. subst. reflexivity.
     Qed.
   End SoundPlain.
+  #[local] Set Default Proof Using "Hlen_leaf Hlen_bottom Hlen_node".
 
   (* ================= completeness, plain arrays ================= *)
   Lemma pairs_from_keys : forall (g : N -> digest) (l : list (N * digest)),
